@@ -41,6 +41,36 @@ checks = {
    "and all package variables are shared and must not be written non-atomically; pooled results are owned between Get and Put. Two simultaneously live results "
    "(the single-thread projection of two goroutines) each expose only their own input under an adversarial pool. Violations are replayed as an 8-goroutine "
    "workload under the Go race detector.", "§5 C15"),
+ "C04": ("model_checking",
+   "The generated Size/Marshal/MarshalTo are produced at check time by the plug-in built from /repo (no protoc: hand-built CodeGeneratorRequest) for a schema corpus "
+   "(proto3 and proto2: 16 scalar kinds x singular/optional/repeated packed/unpacked at field numbers of every key size, nested/repeated/recursive messages, oneof, "
+   "6 map kinds, a multi-field message) and executed symbolically with everything they call in csproto. Obligation per message value: buffer of exactly Size() bytes "
+   "with symbolic initial contents, MarshalTo succeeds without any implicit panic, len(Marshal())==Size(), identical bytes. Lists <=2-3 (varint) / <=3-6 and 15-17/31-33/127-129 (fixed, bool) elements.", "§4, §5 C04"),
+ "C05": ("model_checking",
+   "Marshal output of every corpus message value equals the canonical encoding written by the protowire reference from the spec rules (presence per syntax, packed/unpacked, "
+   "oneof, map entries, nested); on every replayed witness the oracle itself is validated against proto.Marshal(Deterministic) of the real protobuf-go runtime and a "
+   "counterexample is only reported if the real runtime decodes the bytes to a different message/presence. Google v2 structs, apiversion=v2.", "§4, §5 C05"),
+ "C06": ("model_checking",
+   "Generated Unmarshal on valid encodings enumerated by shape with symbolic values: singular field twice with an unknown field interleaved, repeated fields in every "
+   "legal wire form for both declared packings (unpacked, one packed run, split runs, empty run), nested/recursive messages, oneof member sequences, map entries in "
+   "6 shapes, pre-populated destination. Expected state is spec-derived; on replay proto.Unmarshal/proto.Equal of the real runtime decides.", "§5 C06"),
+ "C07": ("model_checking",
+   "Unknown fields (symbolic number, any of the 4 wire types, symbolic payload) before and after a known field: after Unmarshal, Size counts them and Marshal re-emits "
+   "them byte for byte (known fields first, unknown in arrival order), per message kind; validated against the real runtime on replay.", "§5 C07"),
+ "C08": ("model_checking",
+   "Generated Unmarshal of 15 message types on fully unconstrained input bytes of length <=4-6 (quick) / <=6-10 (thorough): no implicit panic, make() capacity <= 8*len+64. "
+   "The differential clause (both accept => equal) is covered by C06's valid shapes only; arbitrary-input differential is outside the claim.", "§5 C08"),
+ "C09": ("model_checking",
+   "Two-step history that generalises: contents A, Size() (cache now holds Size(A), as any history or the runtime's proto.Size can leave it), assignment of independent "
+   "symbolic contents B through the fields (also inside an already-sized nested message), then Marshal == canonical(B) and MarshalTo into Size() bytes succeeds. "
+   "Per message kind and for composites. Concurrent clause: the only write in Size/Marshal is the atomic store of the cache (ownership obligation).", "§5 C09"),
+ "C10": ("model_checking",
+   "Heap-identity obligation after generated Unmarshal without enableunsafedecode: no non-empty string/[]byte reachable from the message (fields, repeated, oneof, map values, "
+   "nested, unknown-field storage) shares the input's backing object; the native replay overwrites the buffer and compares. Lazy-decoder safe mode is covered by C14's stability obligations.", "§5 C10"),
+ "C17": ("model_checking",
+   "proto2 messages with 1-3 required fields, flat and nested (child + repeated kids), all presence vectors symbolic: Marshal/MarshalTo return an error iff a required "
+   "field of the message or of a nested message reached is unset (all-unset included); Unmarshal of the canonical bytes of every presence vector returns an error iff "
+   "one is missing (empty input and empty nested messages included); complete messages never fail.", "§5 C17"),
 }
 
 na = [
